@@ -63,7 +63,8 @@ def make_pkg(pid, iface, statuses, faults=FAULTS, redirect=None, retry=None, log
     files = restgen.render_package("cs", [iface], modpath="verifcases/c_" + pid)
     args = ["rest", "-type=" + iface["name"]]
     return {"id": pid, "iface": iface, "files": files, "runs": [{"args": args}],
-            "oracle": {".": restgen.c10_oracle("cs", iface, spec, BODIES, faults, redirect=redirect, retry=retry, logged=logged)},
+            "oracle": {".": restgen.c10_oracle("cs", iface, spec, BODIES, faults, redirect=redirect, retry=retry, logged=logged,
+                                               logged_statuses=status_spec(BOUNDARY))},
             "statuses": expand(spec), "faults": list(faults), "redirect": redirect, "retry": retry or {}, "logged": list(logged or []),
             "cmd": "shoot " + " ".join(args)}
 
@@ -105,6 +106,13 @@ def subcases(pkg):
                             "sexp": "(case %s rest-call (shape %s) (status %d) (body %s))" % (cid, shape, st, b),
                             "key": "%s|%s|%d|%s" % (shape, m["result"]["type"], st, b),
                             "cmd": json.dumps(dict(info, status=st, body=b))})
+        for st in BOUNDARY:
+            for b in BODIES:
+                cid = "%s.%s.lg.%s.%s" % (pkg["id"], m["name"], sid(st), b)
+                out.append({"id": cid, "pkg": pkg["id"], "okey": "%s@log/%d/%s/" % (m["name"], st, b), "shape": shape, "status": st, "body": b, "fault": None,
+                            "sexp": "(case %s rest-call (shape %s) (status %d) (body %s))" % (cid, shape, st, b),
+                            "key": "%s|%s|log|%d|%s" % (shape, m["result"]["type"], st, b),
+                            "cmd": json.dumps(dict(info, status=st, body=b, logged="chain"))})
         for tag, _lg, _k in pkg.get("logged", []):
             for f in ("refused", "cancelled", "timeout"):
                 cid = "%s.%s.lf.%s.%s" % (pkg["id"], m["name"], tag, f)
